@@ -373,6 +373,8 @@ def queued_job(job):
 
 
 def run(ctx):
+    from vlib import concur
+    concur.register(ctx, "C08")
     ctx.shard(queued_job, [(t, k) for t in ("udp", "tcp") for k in (False, True)], "exception frame arrives while other callers are queued on the same protocol object")
     ctx.shard(api_job, [(p, 16) for p in range(16)], "inverter classes: request k of a poll answered with exception code != 2 (must surface, must not disable a block)")
     table_checks(ctx.acc)
@@ -392,6 +394,10 @@ def run(ctx):
 
 
 def replay(ctx, case):
+    if isinstance(case, dict) and case.get("overlap") and "callers" in case:
+        from vlib import concur
+        concur.replay(ctx.acc, case, concur.INVARIANTS["C08"], "C08")
+        return
     if case.get("queued"):
         for key, msg, c in check_queued(ctx.acc, case):
             ctx.acc.fail(key, msg, c)
